@@ -5,7 +5,10 @@ SPEC = {
     "drivers": [{"pkg": "internal/corerad", "test": "TestVerifC04", "newgo": True, "timeout": 900},
                 # the real operating-system State behind the forwarding flag: agreement with the sysctl files, error
                 # classes, concurrent reads of different interfaces never mix
-                {"pkg": "internal/system", "test": "TestVerifState", "newgo": True, "timeout": 600}],
+                {"pkg": "internal/system", "test": "TestVerifState", "newgo": True, "timeout": 600},
+                # the daemon end to end (the real main() in a child process, private network namespace, veth pair):
+                # forwarding flipped under it; the wire, the metrics and the API follow at once
+                {"pkg": "cmd/corerad", "test": "TestVerifE2E", "timeout": 300, "arch386": []}],
     "rule": "generated accepted configurations with 1-3 advertising interfaces and 0-2 monitoring / unused interfaces (an unused stanza may carry a full "
             "advertising configuration) inserted anywhere in the interface list, half of them after every advertising interface; their forwarding flags "
             "flip like the others and every scrape is also observed for them (own forwarding gauge, no misconfiguration series at all) (default_lifetime absent / auto / 0s / = max_interval / "
